@@ -1,6 +1,7 @@
 package main
 
 import (
+	"path/filepath"
 	"fmt"
 	"os"
 	"strings"
@@ -45,6 +46,15 @@ func cmdVerify(args []string) {
 	}
 	for _, d := range drift {
 		fmt.Println("DRIFT:", d)
+	}
+	// interactive use: the monotone-counter invariants accepted in any committed claims file
+	if files, err := filepath.Glob(filepath.Join(verifDir, "claims", "C*.txt")); err == nil {
+		for _, f := range files {
+			loadClaims(strings.TrimSuffix(filepath.Base(f), ".txt"), "thorough")
+		}
+	}
+	if os.Getenv("MLRVC_MONO_ALL") != "" {
+		monoMode = 1
 	}
 	var results []*FuncResult
 	for _, ct := range cs.List {
